@@ -127,6 +127,15 @@ static bool DyndepOnRule(const Stmt& s) { return !s.phony && !s.dyndep.empty() &
 // A third of the statements with deps / depfile bind them on the build statement instead of the rule.
 // a third of the statements bind restat / generator on the build statement, not on the rule
 static bool FlagsOnBuild(const Stmt& s) { return !s.regen && !s.outs.empty() && Hash64(s.outs[0], (uint64_t)s.id * 29 + 13) % 3 == 0; }
+// An alias of the plain form (one output, nothing implicit) may name itself among its inputs, as old CMake
+// versions wrote it: ninja drops the self-reference with a warning (-w phonycycle=warn, the default) and
+// the statement means what it means without it. One such alias in four does: half among the explicit
+// inputs, half among the order-only ones. The scenario's own structure never holds the self-reference.
+static int SelfRef(const Stmt& s) {
+  if (!s.phony || s.outs.size() != 1 || !s.imp_outs.empty() || !s.imp_ins.empty() || !s.extra_imp.empty() || !s.validations.empty()) return 0;
+  uint64_t h = Hash64(s.outs[0], (uint64_t)s.id * 37 + 21) % 8;
+  return h == 0 ? 1 : h == 1 ? 2 : 0;
+}
 std::string MsvcPrefix(const Stmt& s) {
   if (s.deps_kind != 3 || s.outs.empty()) return "Note: including file: ";
   switch (Hash64(s.outs[0], (uint64_t)s.id * 7 + 3) % 6) {
@@ -178,8 +187,9 @@ static void PrintStmt(const Scenario& sc, const Stmt& s, std::string* o) {
   if (!s.imp_outs.empty()) { *o += " |"; for (auto& p : s.imp_outs) *o += " " + NinjaPathEscape(p); }
   if (s.phony) *o += ": phony"; else { snprintf(buf, sizeof buf, ": r%d", s.id); *o += buf; }
   for (auto& p : s.ins) *o += " " + NinjaPathEscape(p);
+  if (SelfRef(s) == 1) *o += " " + NinjaPathEscape(s.outs[0]);
   if (!s.imp_ins.empty() || !s.extra_imp.empty()) { *o += " |"; for (auto& p : s.imp_ins) *o += " " + NinjaPathEscape(p); for (auto& p : s.extra_imp) *o += " " + NinjaPathEscape(p); }
-  if (!s.oo_ins.empty()) { *o += " ||"; for (auto& p : s.oo_ins) *o += " " + NinjaPathEscape(p); }
+  if (!s.oo_ins.empty() || SelfRef(s) == 2) { *o += " ||"; for (auto& p : s.oo_ins) *o += " " + NinjaPathEscape(p); if (SelfRef(s) == 2) *o += " " + NinjaPathEscape(s.outs[0]); }
   if (!s.validations.empty()) { *o += " |@"; for (auto& p : s.validations) *o += " " + NinjaPathEscape(p); }
   *o += "\n";
   if (s.phony && !s.pool.empty()) *o += "  pool = " + s.pool + "\n";
